@@ -428,6 +428,23 @@ func (n *node) query(ws []string) (string, bool) {
 			l = append(l, gstr(g))
 		}
 		return listStr(l), true
+	case len(ws) == 2 && ws[0] == "below":
+		x, err := strconv.ParseUint(ws[1], 10, 64)
+		if err != nil {
+			return "", false
+		}
+		if !bootHook {
+			return "unmodelled", true
+		}
+		if _, ok := n.iterIds(); !ok {
+			return "LOOP", true
+		}
+		return gstr(firstBelowImpl(x)), true
+	case len(ws) == 1 && ws[0] == "top":
+		if !bootHook {
+			return "unmodelled", true
+		}
+		return strconv.FormatUint(topHeightImpl(), 10), true
 	case len(ws) == 1 && ws[0] == "dump":
 		var l []string
 		for _, kv := range core.VerifGroupChainDump() {
@@ -839,6 +856,10 @@ func (g *gen) probes() {
 		}
 	}
 	g.emit(fmt.Sprintf("syncat %d %d", g.r.Intn(cnt+1), 1+g.r.Intn(8)))
+	if bootHook {
+		g.emit("top")
+		g.emit(fmt.Sprintf("below %d", g.r.Intn(int(g.create)+2)))
+	}
 	if len(g.listed) > 0 {
 		g.emit("sync " + g.listed[g.r.Intn(len(g.listed))])
 		g.emit("byid " + g.listed[g.r.Intn(len(g.listed))])
